@@ -122,7 +122,12 @@ def main():
                     bad += 1
                     continue
             else:
-                apply_spec(spec)
+                try:
+                    apply_spec(spec)
+                except (SystemExit, ValueError) as e:
+                    print("%-4s %-40s SPEC DOES NOT APPLY: %s" % (pid, name, str(e)[:160]))
+                    bad += 1
+                    continue
                 os.makedirs(os.path.join(HERE, "mutants", pid), exist_ok=True)
                 diff = sh("git -C %s diff" % SCRATCH).stdout
                 open(os.path.join(HERE, "mutants", pid, name + ".patch"), "w").write(diff)
